@@ -230,6 +230,6 @@ def _strategy(nmax: int):
 _ = math
 
 STREAMS = {
-    "bases": Stream("bases", oracle=oracle, strategy=strategy, quick=10000, thorough=250000, shards_quick=16, shards_thorough=16),
-    "bases_large": Stream("bases_large", oracle=oracle, strategy=strategy_large, quick=320, thorough=30000, shards_quick=8, shards_thorough=16),
+    "bases": Stream("bases", oracle=oracle, strategy=strategy, quick=10000, thorough=100000, shards_quick=16, shards_thorough=16),
+    "bases_large": Stream("bases_large", oracle=oracle, strategy=strategy_large, quick=320, thorough=6000, shards_quick=8, shards_thorough=16),
 }
